@@ -41,6 +41,7 @@ type Loaded struct {
 	allFuncs       map[*ssa.Function]bool
 	unbound        []string
 	smtFuns        map[string]string
+	behaviors      map[string][]*FuncSpec
 }
 
 type LemmaInfo struct {
@@ -126,7 +127,8 @@ func parseContracts(file string, pkgDir string) ([]*FuncSpec, error) {
 	}
 	defer f.Close()
 	var specs []*FuncSpec
-	var cur *FuncSpec
+	var cur, base *FuncSpec
+	baseReplaced := false
 	var lastExpr *string
 	sc := bufio.NewScanner(f)
 	sc.Buffer(make([]byte, 1<<20), 1<<20)
@@ -154,6 +156,8 @@ func parseContracts(file string, pkgDir string) ([]*FuncSpec, error) {
 		rest := strings.TrimSpace(strings.TrimPrefix(body, kw))
 		if kw == "func" {
 			cur = &FuncSpec{Name: rest, Pkg: pkgDir, Loops: map[string]*LoopSpec{}, Shape: map[string]int{}, File: file, Line: ln}
+			base = cur
+			baseReplaced = false
 			specs = append(specs, cur)
 			continue
 		}
@@ -163,15 +167,17 @@ func parseContracts(file string, pkgDir string) ([]*FuncSpec, error) {
 		switch kw {
 		case "behavior":
 			// a further contract case of the same function; inherits the bookkeeping clauses
-			nb := &FuncSpec{Name: cur.Name, Pkg: cur.Pkg, Loops: map[string]*LoopSpec{}, Shape: map[string]int{}, File: file, Line: ln,
-				Behavior: fields[1], Props: append([]string{}, cur.Props...), OpaqueFns: append([]string{}, cur.OpaqueFns...),
-				MayNil: append([]string{}, cur.MayNil...)}
-			for k, v := range cur.Shape {
+			// inherits the bookkeeping clauses written before the first behavior
+			nb := &FuncSpec{Name: base.Name, Pkg: base.Pkg, Loops: map[string]*LoopSpec{}, Shape: map[string]int{}, File: file, Line: ln,
+				Behavior: fields[1], Props: append([]string{}, base.Props...), OpaqueFns: append([]string{}, base.OpaqueFns...),
+				MayNil: append([]string{}, base.MayNil...)}
+			for k, v := range base.Shape {
 				nb.Shape[k] = v
 			}
-			if cur.Behavior == "" && !cur.HasContract() && len(cur.Loops) == 0 {
+			if !baseReplaced && !base.HasContract() && len(base.Loops) == 0 {
 				// the unnamed prefix held only bookkeeping: this behavior replaces it
 				specs[len(specs)-1] = nb
+				baseReplaced = true
 			} else {
 				specs = append(specs, nb)
 			}
@@ -525,6 +531,17 @@ func genGhost(fset *token.FileSet, dir string, specs []*FuncSpec) ([]string, err
 			hn += "__" + sanitize(sp.Behavior)
 		}
 		fmt.Fprintf(&body, "// contract harness of %s (generated from %s:%d)\nfunc %s(%s) {\n", sp.Name, filepath.Base(sp.File), sp.Line, hn, strings.Join(params, ", "))
+		// a shape is a precondition on the length of the parameter
+		var shapeNames []string
+		for n := range sp.Shape {
+			shapeNames = append(shapeNames, n)
+		}
+		sort.Strings(shapeNames)
+		for _, n := range shapeNames {
+			if regexp.MustCompile(`^[A-Za-z_][A-Za-z_0-9.]*$`).MatchString(n) {
+				fmt.Fprintf(&body, "\tvc.Requires(%q, len(%s) == %d)\n", "shape:"+n, n, sp.Shape[n])
+			}
+		}
 		for _, c := range sp.Requires {
 			fmt.Fprintf(&body, "\tvc.Requires(%q, %s)\n", c.Label, c.Expr)
 		}
@@ -785,8 +802,12 @@ func (p *Loaded) bindSpecs() {
 		}
 		sp.SSAName = fnName(fn)
 		if _, dup := p.specs[sp.SSAName]; !dup {
-			p.specs[sp.SSAName] = sp // the first contract case is the one callers see
+			p.specs[sp.SSAName] = sp // the first contract case is the one callers see by default
 		}
+		if p.behaviors == nil {
+			p.behaviors = map[string][]*FuncSpec{}
+		}
+		p.behaviors[sp.SSAName] = append(p.behaviors[sp.SSAName], sp)
 		hn := harnessName(sp.Name)
 		if sp.Behavior != "" {
 			hn += "__" + sanitize(sp.Behavior)
